@@ -113,9 +113,9 @@ fn plan(cfg: &SCfg, input: &[u8]) -> Result<Plan, &'static str> {
             })
         }
         (None, Some(l)) => {
-            if l == UTF_8 && std::str::from_utf8(input).is_err() {
-                return Err("utf-8 label with invalid UTF-8 (excluded, DESIGN 2.9)");
-            }
+            // (an explicit utf-8 label installs a real decoder — only a sniffed
+            // UTF-8 BOM is passed through —, so malformed sequences become
+            // U+FFFD like for every other label)
             let (text, used, _) = l.decode(input);
             if used != l {
                 return Err("encoding_rs changed the encoding without a BOM (harness assumption broken)");
@@ -1281,6 +1281,20 @@ pub fn gen_case(t: &mut Tape) -> Case {
     } else {
         input.extend_from_slice(&region);
     }
+    if !bom && label == Some(Enc::U8) && sniff && t.chance(1, 2) && input.len() >= 6 && input[input.len() - 4..].is_ascii() {
+        // explicit utf-8 label, no BOM: malformed UTF-8 must be replaced by
+        // U+FFFD under every strategy
+        let k = 1 + t.below(3);
+        for _ in 0..k {
+            // (not within the last bytes: a malformed sequence still pending
+            // at end of input runs into the known end-of-input findings)
+            let at = t.below(input.len().saturating_sub(4) + 1);
+            let piece: &[u8] = *t.pick(&[b"\xFF".as_slice(), b"\x80", b"\xE2\x82", b"\xC3", b"\xF0\x9F\x98", b"\xED\xA0\x80"]);
+            for (i, b) in piece.iter().enumerate() {
+                input.insert(at + i, *b);
+            }
+        }
+    }
     let strats = gen_strats(t, big);
     let shape = format!(
         "{mode_name}: text encoded as {:?}, bom={bom}, label={:?}, sniffing={sniff}, {placement}, pattern {:?}",
@@ -1295,10 +1309,13 @@ pub fn run(pc: &PropCtx) {
     );
     pc.assume("encoding_rs one-shot decoding (Encoding::decode / decode_without_bom_handling) is the reference transcoding");
     pc.assume("search_slice without encoding and with bom_sniffing(false) searches exactly the given bytes (C01-C03 cover that search itself)");
-    pc.assume("UTF-8 BOM or utf-8 label with invalid UTF-8 is outside the domain (decoder documented as pass-through, DESIGN 2.9); an explicit label together with bom_sniffing(false) is undocumented and not generated");
+    pc.assume("a UTF-8 BOM followed by invalid UTF-8 is outside the domain (the decoder is documented as pass-through after a sniffed UTF-8 BOM, DESIGN 2.9); an explicit utf-8 label WITHOUT a BOM is in the domain (malformed => U+FFFD); an explicit label together with bom_sniffing(false) is undocumented and not generated");
     pc.bound("decode_buffer", serde_json::json!(DECODE_BUF));
     let cases = pc.tier.pick(25_000, 250_000);
     pc.run_tape("transcode", cases, (160, 2500), gen_case, check);
+    if pc.tier == crate::runner::Tier::Thorough {
+        pc.run_fuzz("C17:transcode", 50_000, 10000, &|v| replay(pc, "transcode", v).unwrap_or(Verdict::Reject("unreadable")));
+    }
     let c = cases as u64;
     for (class, min) in [
         ("transcode:match_after_split_character", c / 4),
